@@ -16,10 +16,38 @@ package derive
 
 import (
 	"fmt"
+	"go/build"
 	"go/parser"
+	"go/token"
+	"os"
+	"path/filepath"
 
 	"golang.org/x/tools/go/loader"
 )
+
+// removeUnreadableDerived removes the generated file of a package, when its package clause or imports cannot be parsed,
+// for example when it is the remnant of an interrupted run.
+// go/build refuses to load a package that contains such a file and the file is about to be regenerated anyway.
+func removeUnreadableDerived(paths []string) {
+	cwd, err := os.Getwd()
+	if err != nil {
+		return
+	}
+	for _, path := range paths {
+		pkg, err := build.Import(path, cwd, build.FindOnly)
+		if err != nil || pkg.Dir == "" {
+			continue
+		}
+		filename := filepath.Join(pkg.Dir, derivedFilename)
+		src, err := os.ReadFile(filename)
+		if err != nil {
+			continue
+		}
+		if _, err := parser.ParseFile(token.NewFileSet(), filename, src, parser.ImportsOnly); err != nil {
+			os.Remove(filename)
+		}
+	}
+}
 
 func load(paths ...string) (*loader.Program, error) {
 	conf := loader.Config{
@@ -27,6 +55,7 @@ func load(paths ...string) (*loader.Program, error) {
 		AllowErrors: true,
 	}
 	conf.TypeChecker.Error = func(err error) {}
+	removeUnreadableDerived(paths)
 	rest, err := conf.FromArgs(paths, true)
 	if err != nil {
 		return nil, fmt.Errorf("could not parse arguments: %s", err)
